@@ -46,6 +46,8 @@ structure BSys where
   accepted : List Msg := []        -- ghost: messages whose enqueue returned true, in order
   gone : List Msg := []            -- ghost: messages that left the queue (dequeued, dropped, cleared), in order
   clearedN : Nat := 0              -- ghost: how many messages `clear` threw away
+  dropped : List Msg := []         -- ghost: messages overwritten by DROP_OLDEST, in order
+  deqd : List Msg := []            -- ghost: messages handed to the consumer, in order
   crashed : Bool := false
   deriving Repr
 
@@ -67,6 +69,7 @@ def BSys.writerStep (s : BSys) (i : Nat) : BSys :=
         | (q', .ok) =>
           { s with q := q', accepted := s.accepted ++ [m],
                    gone := if willDrop then s.gone ++ [s.q.oldest] else s.gone,
+                   dropped := if willDrop then s.dropped ++ [s.q.oldest] else s.dropped,
                    ws := s.ws.set i { todo := rest, pc := .start } }
         | (q', .blocked) => { s with q := q', ws := s.ws.set i { w with pc := .waiting } }
         | (q', .fail) => { s with q := q', ws := s.ws.set i { todo := rest, pc := .start } }
@@ -76,7 +79,8 @@ def BSys.step (s : BSys) : BAct → BSys
   | .writer i => s.writerStep i
   | .deq buf =>
     match s.q.dequeue buf with
-    | (q', .msg m) => { s with q := q', gone := s.gone ++ [m], signaled := s.q.blockWriter || s.signaled }
+    | (q', .msg m) => { s with q := q', gone := s.gone ++ [m], deqd := s.deqd ++ [m],
+                                signaled := s.q.blockWriter || s.signaled }
     | (q', .crash) => { s with q := q', crashed := true }
     | (q', .none) => { s with q := q' }
   | .clear =>
